@@ -423,6 +423,28 @@ impl Published {
         }
     }
 
+    /// Like `write_rsync_tree`, for worlds whose URIs cannot all live in one
+    /// file system tree (a file where another URI needs a directory, names
+    /// ending in a slash, over-long names): the first file wins, what cannot
+    /// be written is returned.  The authority is written in lower case, the
+    /// way routinator asks for a module.  URIs of other schemes are skipped.
+    pub fn write_rsync_tree_tolerant(&self, root: &Path) -> Vec<String> {
+        let _ = std::fs::remove_dir_all(root);
+        std::fs::create_dir_all(root).unwrap();
+        let mut skipped = Vec::new();
+        for (uri, content) in &self.files {
+            if uri.len() < 8 || !uri[..8].eq_ignore_ascii_case("rsync://") { continue }
+            let rel = &uri[8..];
+            let (auth, rest) = rel.split_once('/').unwrap_or((rel, ""));
+            if rest.is_empty() || rest.ends_with('/') { skipped.push(uri.clone()); continue }
+            let path = root.join(auth.to_ascii_lowercase()).join(rest);
+            let ok = path.parent().map(|d| std::fs::create_dir_all(d).is_ok()).unwrap_or(false)
+                && !path.is_dir() && std::fs::write(&path, content).is_ok();
+            if !ok { skipped.push(uri.clone()) }
+        }
+        skipped
+    }
+
     pub fn write_tals(&self, dir: &Path) {
         let _ = std::fs::remove_dir_all(dir);
         std::fs::create_dir_all(dir).unwrap();
